@@ -115,6 +115,10 @@ func (s *Set[T]) WithLock(mtx *sync.Mutex) {
 
 func (s *Set[T]) isOrdered() bool { return s.list != nil }
 
+// ordered reports if the set tracks order, holding the set's lock (for
+// callers that do not hold it.)
+func (s *Set[T]) ordered() bool { defer s.with(s.lock()); return s.list != nil }
+
 func (s *Set[T]) init()            { s.hash = Map[T, *Element[T]]{} }
 func (*Set[T]) with(m *sync.Mutex) { ft.WhenCall(m != nil, m.Unlock) }
 func (s *Set[T]) lock() *sync.Mutex {
@@ -219,7 +223,7 @@ func (s *Set[T]) Producer() (out fun.Producer[T]) {
 func (s *Set[T]) Equal(other *Set[T]) bool {
 	defer s.with(s.lock())
 
-	if len(s.hash) != other.Len() || s.isOrdered() != other.isOrdered() {
+	if len(s.hash) != other.Len() || s.isOrdered() != other.ordered() {
 		return false
 	}
 
